@@ -225,11 +225,15 @@ where
         F: FnOnce(&'s Self, &'s [u8]) -> Result<T>,
     {
         loop {
-            match self.peek()? {
+            let next = self.peek()?;
+            match next {
                 Some(b' ') | Some(b'\n') | Some(b'\t') | Some(b'\r') | Some(0x0C) | Some(b')')
                 | Some(b']') | Some(b'(') | Some(b'[') | Some(b';') | None => {
                     if scratch == b"." {
                         return error(self, ErrorCode::InvalidSymbol);
+                    }
+                    if next.is_none() && ends_in_partial_char(scratch) {
+                        return error(self, ErrorCode::EofWhileParsingValue);
                     }
                     return result(self, scratch);
                 }
@@ -382,7 +386,8 @@ impl<'a> SliceRead<'a> {
         let start = self.index;
 
         loop {
-            match self.peek_byte() {
+            let next = self.peek_byte();
+            match next {
                 None | Some(b' ') | Some(b'\n') | Some(b'\t') | Some(b'\r') | Some(0x0C)
                 | Some(b')') | Some(b']') | Some(b'(') | Some(b'[') | Some(b';') => {
                     if scratch.is_empty() {
@@ -392,11 +397,17 @@ impl<'a> SliceRead<'a> {
                         if borrowed == b"." {
                             return error(self, ErrorCode::InvalidSymbol);
                         }
+                        if next.is_none() && ends_in_partial_char(borrowed) {
+                            return error(self, ErrorCode::EofWhileParsingValue);
+                        }
                         return result(self, borrowed).map(Reference::Borrowed);
                     } else {
                         scratch.extend_from_slice(&self.slice[start..self.index]);
                         if scratch == b"." {
                             return error(self, ErrorCode::InvalidSymbol);
+                        }
+                        if next.is_none() && ends_in_partial_char(scratch) {
+                            return error(self, ErrorCode::EofWhileParsingValue);
                         }
                         // "as &[u8]" is required for rustc 1.8.0
                         let copied = scratch as &[u8];
@@ -699,6 +710,12 @@ fn as_char<'de, 's, R: Read<'de> + ?Sized>(read: &R, value: u32) -> Result<char>
         None => error(read, ErrorCode::InvalidUnicodeCodePoint),
         Some(c) => Ok(c),
     }
+}
+
+/// Whether the bytes are well-formed UTF-8 up to a multi-byte character that is
+/// cut short at their end, as happens when the input is truncated.
+fn ends_in_partial_char(bytes: &[u8]) -> bool {
+    matches!(str::from_utf8(bytes), Err(e) if e.error_len().is_none())
 }
 
 fn needs_escape(c: u8) -> bool {
@@ -1211,7 +1228,7 @@ pub(crate) fn decode_utf8_sequence<'de, R: Read<'de> + ?Sized>(
     for _ in 0..len {
         let b = match read.next()? {
             Some(c) => c,
-            None => return error(read, ErrorCode::InvalidUnicodeCodePoint),
+            None => return error(read, ErrorCode::EofWhileParsingValue),
         };
         scratch.push(b);
     }
